@@ -74,7 +74,19 @@ def gen_cases(rng, tier):
                 elif spec["controls"]:
                     u = rng.choice(spec["controls"])
                     updates.append({"op": "set_initial", "name": u["name"], "value": ocpgen.rnd(rng, -2, 2)})
+        resave = []
+        if phase == "before" and rng.random() < 0.4:
+            # checkpointing: save, change values / guesses on the (still untranscribed) OCP, save to the same file again
+            for _ in range(rng.randint(1, 2)):
+                if spec["params"] and rng.random() < 0.6:
+                    p = rng.choice(spec["params"])
+                    from .c09 import rand_value
+                    resave.append({"op": "set_value", "name": p["name"], "value": rand_value(rng, p, spec["method"]["N"])})
+                elif spec["controls"]:
+                    u = rng.choice(spec["controls"])
+                    resave.append({"op": "set_initial", "name": u["name"], "value": ocpgen.rnd(rng, -2, 2)})
         cases.append({"spec": spec, "phase": phase, "updates": updates, "seed": rng.getrandbits(32), "edit": edit,
+                      "resave": resave,
                       "solve_loaded": rng.random() < 0.5})
     # multi-stage problems (stages declared directly and cloned from a template, parent variable / parameter, couplings)
     from . import c12
@@ -200,7 +212,8 @@ def run_case(case):
     from . import engine
     spec = case["spec"]
     phase = case["phase"]
-    sig = C.config_sig(spec, "%s|%s" % (phase, "".join(u["op"][4] for u in case["updates"])))
+    sig = C.config_sig(spec, "%s|%s%s" % (phase, "".join(u["op"][4] for u in case["updates"]),
+                                          "|resave" if case.get("resave") else ""))
     res = {"sig": sig, "evals": 0, "violations": [],
            "counters": {"nlp_points": 0, "physical_points": 0, "solver_sensed": 0, "original_after_save": 0}}
     rng = np.random.default_rng(case["seed"])
@@ -251,6 +264,14 @@ def run_case(case):
             ref_eval = [obs.view.eval(w, ref_p0) for w in pts]
             ref_phys = [obs.rb(w, ref_p0) for w in pts]
         C.call("save", b.ocp.save, fname)
+        if case.get("resave"):
+            for u in case["resave"]:
+                if u["op"] == "set_value":
+                    C.call("set_value(after save)", b.stage.set_value, b.syms[u["name"]], build.param_value({"value": u["value"]}))
+                else:
+                    C.call("set_initial(after save)", b.stage.set_initial, b.syms[u["name"]], u["value"])
+            C.call("save(again)", b.ocp.save, fname)
+            res["counters"]["saved_twice_to_one_file"] = 1
         ocp2 = C.call("load", rockit.Ocp.load, fname)
         # the original after saving
         obs1 = engine.Observed(spec, b)
